@@ -277,7 +277,7 @@ def check(ctx):
         evaluations=acc["evaluations"], distinct_nontrivial=r1["distinct_nontrivial"],
         rule=("one evaluation = one HTTP request to the real goproxytest server compared with the response TLC predicted. Stores: every set of < %d and "
               "1/%d (seeded) of the sets of exactly %d items [module version, layout] over 10 module versions (paths example.com/m, example.com/M/v2 (case-escaped), "
-              "example.com/m/sub; versions v1.0.0, v1.1.0-pre, v2.0.0+incompatible, v2.0.0, v1.0.0-Alpha.1, two pseudo-versions, versions not valid for their path; "
+              "example.com/m/sub; versions v1.0.0, v1.1.0-next, v2.0.0+incompatible, v2.0.0, v1.0.0-Alpha.1, two pseudo-versions, versions not valid for their path; "
               ".info with and without Short; full / tiny / .mod-less contents with nested, dot, empty and binary files) x {.txtar, .txt, directory}: %d stores, each "
               "with stray entries; %d requests per store (list x 4 paths, .info/.mod/.zip of all 10 versions, not stored versions / paths / extensions, 17 commit-hash "
               "requests, 10 malformed URLs). distinct_nontrivial = distinct (store, request) pairs whose predicted status is 200 (sequential replay only). "
